@@ -92,6 +92,21 @@ impl Layout {
         len
     }
 
+    #[cfg(feature = "verif")]
+    pub fn pending_holes(&self) -> &BTreeMap<usize, usize> {
+        &self.pending_holes
+    }
+
+    #[cfg(feature = "verif")]
+    pub fn reserved_extents(&self) -> &BTreeMap<usize, usize> {
+        &self.start_to_reserved
+    }
+
+    #[cfg(feature = "verif")]
+    pub fn hole_to_starts(&self) -> &BTreeMap<usize, SmallVec<[usize; 1]>> {
+        &self.hole_to_starts
+    }
+
     pub fn get_last_region(&self) -> Option<(usize, &Region)> {
         self.start_to_region
             .last_key_value()
